@@ -235,11 +235,35 @@ class World:
             ps = scen.get_parset(ps, self.P)
         return ps
 
-    def run(self, progs=True, parset=None):
+    def run(self, progs=True, parset=None, via=None):
+        """via (or spec["via"]): None = Project.run_sim; "pickle" / "deepcopy" = the model is built, copied that way, and the COPY is integrated
+        (what the optimiser does with every model it evaluates); "copy_after_read" = additionally every reported quantity of the built model
+        is read once before it is integrated (reading must not change anything)."""
         if parset is None and self.spec.get("scen"):
             parset = self.scenario_parset()
         ps, ins = (self.progset, self.instr) if progs else (None, None)
-        return self.P.run_sim(parset or self.parset, ps, ins, store_results=False)
+        via = via or self.spec.get("via")
+        if not via:
+            return self.P.run_sim(parset or self.parset, ps, ins, store_results=False)
+        import pickle
+        import sciris as sc
+        from atomica.model import Model
+        from atomica.results import Result
+
+        parset = parset or self.parset
+        m = Model(self.P.settings, self.F, parset, ps, ins)
+        if via == "pickle":
+            m = pickle.loads(pickle.dumps(m))
+        elif via == "deepcopy":
+            m = sc.dcp(m)
+        elif via == "read_first":
+            for pop in m.pops:
+                for v in list(pop.comps) + list(pop.characs) + list(pop.pars) + list(pop.links):
+                    v.vals  # noqa
+        else:
+            raise ValueError(via)
+        m.process()
+        return Result(model=m, parset=parset, name="via_" + via)
 
 
 def run_spec(spec, progs=True):
